@@ -101,8 +101,7 @@ Definition deserialize_compact (allow : option (list string)) (s : string) (rawk
       match header_alg allow h with EErr e => EErr e | EOk alg =>
       match header_enc allow h with EErr e => EErr e | EOk enc =>
       match header_zip allow h with EErr e => EErr e | EOk zip =>
-      let raw := match rawkey with PNone => match dict_get "jwk" h with Some j => j | None => PNone end | _ => rawkey end in
-      match prepare_key alg raw with None => EErr (EKeyError "prepare_key") | Some k =>
+      match prepare_key alg (effective_key h rawkey) with None => EErr (EKeyError "prepare_key") | Some k =>
       match unwrap alg enc ek h k with None => EErr (EKeyError "unwrap") | Some cek =>
       match decrypt enc cek iv ps ct tag with None => EErr EDecrypt | Some msg =>
       match finish zip msg with EErr e => EErr e | EOk payload => EOk (h, payload)
